@@ -693,14 +693,19 @@ Loads(cfg, dir) == LET rd == Readings(cfg, dir)
                    IN  IF Rej \notin rd THEN "yes" ELSE IF rd = {Rej} THEN "no" ELSE "either"
 RulesOf(cfg, dir) == { x[2] : x \in Readings(cfg, dir) \ {Rej} }      \* set of rule sequences
 
-ExpCfg(cfg, dir, envId) ==
+\* pp: the configuration is also evaluated on the port pairs (pallow / peither; the vectors that vary the port text)
+ExpCfg(cfg, dir, envId, pp) ==
     LET rd == Readings(cfg, dir)
         rs == { x[2] : x \in rd \ {Rej} }
         los == { AllowSet(rules, envId, dir, FALSE) : rules \in rs }
         lo == IF rs = {} THEN {} ELSE { id \in Pairs(envId) : \A s \in los : id \in s }
         hi == UNION { AllowSet(rules, envId, dir, TRUE) : rules \in rs }
+        PP == IF pp THEN PPairsIn[envId] ELSE {}
+        plos == { AllowSetOn(PP, rules, envId, dir, FALSE) : rules \in rs }
+        plo == IF rs = {} THEN {} ELSE { id \in {x.id : x \in PP} : \A s \in plos : id \in s }
+        phi == UNION { AllowSetOn(PP, rules, envId, dir, TRUE) : rules \in rs }
     IN  [loads |-> IF Rej \notin rd THEN "yes" ELSE IF rd = {Rej} THEN "no" ELSE "either",
-         allow |-> lo, either |-> hi \ lo, nreadings |-> Cardinality(rd)]
+         allow |-> lo, either |-> hi \ lo, pallow |-> plo, peither |-> phi \ plo, nreadings |-> Cardinality(rd)]
 
 (* the configuration lattice *)
 any3 == <<"a", "n", "y">>
@@ -714,7 +719,11 @@ PortTextsQ == {
     <<"0","-","0">>, <<"8","0","-","0">>, <<"1","-","6","5","5","3","6">>, <<"8","0","-","6","5","6","2","6">>,
     <<"6","5","6","1","6","-","6","5","6","2","6">>, <<"8","0","-","a","n","y">>, <<"a","n","y","-","9","0">>,
     <<"f","r","a","g","m","e","n","t","-","9","0">>, <<"0","x","5","0","-","0","x","5","a">>, <<"8","0",",","9","0">>,
-    <<"8","0","-","0","9","0">>, <<"7","9","-","9","1">>, <<"9","1","-","6","5","5","3","5">> }
+    <<"8","0","-","0","9","0">>, <<"7","9","-","9","1">>, <<"9","1","-","6","5","5","3","5">>,
+    \* the whole port space (a range, not `any': no port 0, no packet without ports), its neighbours, and written from 0
+    <<"1","-","6","5","5","3","5">>, <<" ","1"," ","-"," ","6","5","5","3","5"," ">>, <<"1","-","6","5","5","3","4">>,
+    <<"2","-","6","5","5","3","5">>, <<"0","-","6","5","5","3","5">>, <<"1","-","1","0","0">>, <<"6","5","0","0","0","-","6","5","5","3","5">>,
+    <<"1">> }
 PortTokens == {PStr(c) : c \in PortTextsQ}
               \cup {Missing, Null, Bool("true"), List(<<E("int", "80")>>),
                     PInt(<<"8","0">>), PInt(<<"0">>), PInt(<<"-","8","0">>), PInt(<<"6","5","6","1","6">>), PInt(<<"6","5","5","3","5">>)}
@@ -739,9 +748,12 @@ ValuesOf(f) ==
       [] f = "ca_name" -> {Str("ca-one"), Str("ca-two"), Missing, Null, IntT("5"), List(<<E("str", "ca-one")>>), Str("")}
       [] f = "ca_sha" -> {Str("sha1"), Str("sha3"), Missing, Null, Str("")}
 
-CfgVec(cfg, dir, env) == [kind |-> "cfg", env |-> env, dir |-> dir, cfg |-> cfg]
+CfgVec(cfg, dir, env) == [kind |-> "cfg", env |-> env, dir |-> dir, cfg |-> cfg, pp |-> FALSE]
+\* a vector that varies the port text: evaluated on the port pairs as well (ports inside, on the edges and just outside
+\* the ranges of the lattice, port 0, packets without ports, tcp / udp / icmp / another protocol)
+CfgVecP(cfg, dir, env) == [kind |-> "cfg", env |-> env, dir |-> dir, cfg |-> cfg, pp |-> TRUE]
 \* (P) every port / code text under every protocol
-CfgPort(u) == { CfgVec(<<[BaseMap EXCEPT !.port = pt, !.proto = Str(pr), !.host = Str("any")]>>, dir, "plain")
+CfgPort(u) == { CfgVecP(<<[BaseMap EXCEPT !.port = pt, !.proto = Str(pr), !.host = Str("any")]>>, dir, "plain")
              : pt \in PortTokens, pr \in {"any", "tcp", "udp", "icmp"}, dir \in Dirs }
            \cup { CfgVec(<<[BaseMap EXCEPT !.port = pt, !.code = ct, !.proto = Str(pr), !.host = Str("any")]>>, "in", "plain")
              : pt \in {Missing, PStr(<<"8","0">>)}, ct \in PortTokens, pr \in {"tcp", "icmp"} }
@@ -777,7 +789,7 @@ Expected(i) == CASE i.kind = "universe" -> ExpUniverse
                  [] i.kind = "rules"    -> ExpRules(i.rules, i.env)
                  [] i.kind = "prules"   -> ExpRulesOn(PPairsIn[i.env], i.rules, i.env)
                  [] i.kind = "attack"   -> Exp17(i)
-                 [] i.kind = "cfg"      -> ExpCfg(i.cfg, i.dir, i.env)
+                 [] i.kind = "cfg"      -> ExpCfg(i.cfg, i.dir, i.env, i.pp)
 Pending == /\ exp = <<>> /\ done = FALSE
 
 \* the port dimension (enumerated in Init: no big sets)
@@ -825,6 +837,11 @@ LinkCfg == (done /\ in.kind = "cfg") =>
             /\ t \subseteq AllowSet(rules, in.env, in.dir, TRUE)
             /\ exp.allow \subseteq t
             /\ t \subseteq exp.allow \cup exp.either
+            /\ in.pp => LET pt == TableSetOn(PPairsIn[in.env], rules, in.env, in.dir)
+                        IN  /\ AllowSetOn(PPairsIn[in.env], rules, in.env, in.dir, FALSE) \subseteq pt
+                            /\ pt \subseteq AllowSetOn(PPairsIn[in.env], rules, in.env, in.dir, TRUE)
+                            /\ exp.pallow \subseteq pt
+                            /\ pt \subseteq exp.pallow \cup exp.peither
 
 -----------------------------------------------------------------------------
 (* MC_Firewall_C17: the Drop machine over every conntrack and cache content. *)
